@@ -303,6 +303,53 @@ def check_argmin(prog, rep, m, g, role):
             'the argmin must look at every cell: rows 0..shape[0], columns 0..shape[1]')
     if not ok_range:
         return None
+    # early exits from the scan: a `break` skips cells - sound only if no skipped cell can beat the running minimum
+    brk = [(Lo, gb) for gb, envb, nb in getattr(Lo, 'breaks', [])] + [(L, gb) for gb, envb, nb in getattr(L, 'breaks', [])]
+    if brk:
+        vat = _single_atom(V)
+        verdict, whyb = None, 'the scanned value is not a distance to a fixed cell: pruning cannot be justified'
+        if vat is not None and vat.name == 'sqrt':
+            ysym, xsym = next(iter(facts['cell'][0].atoms())), next(iter(facts['cell'][1].atoms()))
+            others = [a for a in walk_atoms(vat.args[0]) if isinstance(a, Sym) and a not in (ysym, xsym)]
+            try:
+                verdict = True
+                for (Lb, gb) in brk:
+                    ats = guard_atoms(gb)
+                    free = [a for a in ats if isinstance(a, App) and a.name not in ('abs', 'sqrt', 'min', 'max')]
+                    for mval in (Fraction(3, 2), Fraction(3), Fraction(8)):
+                        for yy in range(0, 21):
+                            for xx in (range(0, 21) if Lb is L else (0,)):
+                                for bit in ((0, 1) if free else (0,)):
+                                    env = {ysym: F(yy), xsym: F(xx), M: mval}
+                                    for Lp in (Lo, L):
+                                        ph = getattr(Lp, 'phi', {}).get(mn)
+                                        if isinstance(ph, Rat):
+                                            env[next(iter(ph.atoms()))] = mval
+                                    for a in others:
+                                        env[a] = F(10)
+                                    for a in free:
+                                        env[a] = F(bit)
+                                    if not _all(gb, env):
+                                        continue
+                                    # cells skipped: this row from xx on (inner break) or every row from yy on (outer break)
+                                    cells_ = [(yy, x2) for x2 in range(xx, 21)] if Lb is L else \
+                                        [(y2, x2) for y2 in range(yy, 21) for x2 in range(0, 21)]
+                                    for (y2, x2) in cells_:
+                                        d2 = evaluate(vat.args[0], {**env, ysym: F(y2), xsym: F(x2)})
+                                        if d2 < mval * mval:
+                                            verdict = False
+                                            whyb = 'with the requested cell at (10, 10) and running minimum %s the scan stops at (%d, %d) ' \
+                                                   'although cell (%d, %d) at squared distance %s is nearer' % (mval, yy, xx, y2, x2, d2)
+                                            raise StopIteration
+            except StopIteration:
+                pass
+            except CannotEvaluate as e:
+                verdict, whyb = None, 'pruning condition not evaluable: %s' % e
+            if verdict:
+                whyb = 'no skipped cell can be nearer (checked on a 21x21 grid for 3 values of the running minimum)'
+        rep.add('A6', g, ENTRY, '%s: %d early exit(s) from the scan' % (g.name, len(brk)), L.node.lineno, verdict,
+                'a `break` in the argmin scan skips cells: it is admissible only when none of the skipped cells can be nearer than '
+                'the running minimum; ' + whyb)
     # eligibility atoms: the truth(...) leaves of the update conditions
     elig_atoms = []
     for cnd in conds(post):
